@@ -273,10 +273,40 @@ def run_kani_group(prop_id, tier, target, modules, harnesses, support=(), elide_
                 filt.append(mp + "verif_proofs::" + n)
         per_h = max([harness_timeout] + [h.timeout or 0 for h in hs])
         log_path = os.path.join(LOG_DIR, "%s-kani-%s.log" % (prop_id, tier))
-        results, wall, cerr, out = kk.run_kani(o, filt, target=target, harness_timeout=per_h, jobs=jobs, log_path=log_path, mem_gb=mem_gb)
+        # One cargo-kani invocation per chunk of harnesses: the kani driver process (which also runs under the address-space cap)
+        # once died with "memory allocation failed" after 20 harness runs in one invocation, losing the results still in flight.
+        # Harnesses whose result is missing after that are re-run once on their own before they count as inconclusive.
+        CHUNK = 10
+        wall = 0.0
+        cerr = None
+        outs = []
+        for c0 in range(0, len(filt), CHUNK):
+            _r, w_, ce, out_ = kk.run_kani(o, filt[c0:c0 + CHUNK], target=target, harness_timeout=per_h, jobs=jobs,
+                                           log_path=(log_path if c0 == 0 else log_path.replace(".log", ".%d.log" % (c0 // CHUNK))), mem_gb=mem_gb)
+            wall += w_
+            outs.append(out_)
+            if ce and not cerr:
+                cerr = ce
+        def merge(texts):
+            res = kk._parse("", names)
+            for t in texts:
+                for n, r in kk._parse(t, []).items():
+                    if n in res and r.status != "missing":
+                        res[n] = r
+            return res
+        parsed = merge(outs)
+        if not cerr:
+            missing = [i for i, n in enumerate(names) if parsed.get(n) is None or parsed[n].status == "missing"]
+            if missing and len(missing) < len(names):
+                _r, w_, ce, out_ = kk.run_kani(o, [filt[i] for i in missing], target=target, harness_timeout=per_h, jobs=max(1, min(jobs, 2)),
+                                               log_path=log_path.replace(".log", ".retry.log"), mem_gb=mem_gb)
+                wall += w_
+                outs.append(out_)
+                parsed = merge(outs)
+                if notes is not None:
+                    notes.append("kani %s: %d harness run(s) without a result were re-run once" % (target, len(missing)))
         if notes is not None:
             notes.append("kani %s: %d harness runs in %.0fs wall; overlay edits: %s" % (target, len(names), wall, "; ".join(d for _, d in o.edits if "append" not in d) or "none besides appended modules"))
-        parsed = kk._parse(out, names)
         for h in hs:
             ob = Obl(h.oid, "K:kani", h.desc, h.functions, h.bounds, list(h.assumptions))
             ob.role = h.role or h.name
